@@ -50,7 +50,7 @@ func trickyDefaults(typ string) []string {
 	case "str":
 		return []string{}
 	case "bytes":
-		return []string{"not base64!", "QQ=", "Q"}
+		return []string{"not base64!", "QQ=", "Q", "AQID ", " AQID", "AQID\t", "AQ ID"}
 	case "none":
 		return []string{"x", "1"}
 	}
